@@ -113,9 +113,10 @@ def contractTarget (s : HS) (contract : String) : Except String PoolUrl :=
         | some u => .ok u
         | none => .ok { host := c.pool, user := "", pwd := "" }
 
-/-- a second destination connection is never opened by the model: the generator does not send
-configure once a destination exists (the code would panic on closing a closed channel: C05) -/
+/-- the destination is chosen by the first configure (or subscribe): a configure on a connection that
+already has one is refused -/
 def onConfigure (s : HS) (id mask minbits contract : String) : HS × List Out :=
+  if s.dest.isSome then fail s "handshake-source" else
   match contractTarget s contract with
   | .error k => fail s k
   | .ok u =>
